@@ -356,6 +356,57 @@ func (c *endChecker) Final(w *World) *Violation {
 			c.counts["unblock-racy"]++
 		}
 	}
+	// A block that ends without an element needs a cause that lies inside the
+	// command's own lifetime: its timeout has elapsed, or a CLIENT UNBLOCK /
+	// CLIENT KILL aimed at it (or at everybody) overlapped it. An unblock that
+	// was over before the command was sent must not end it.
+	for _, b := range w.history {
+		if len(b.Item.Args) == 0 || !isBlockingCmd(string(b.Item.Args[0])) || b.Return < 0 || b.Lost {
+			continue
+		}
+		if !(isNull(b.Reply) || (b.Reply.IsErr() && b.Reply.ErrClass() == "UNBLOCKED")) {
+			continue
+		}
+		argv := strs(b.Item.Args)
+		to := argv[len(argv)-1]
+		if strings.EqualFold(argv[0], "blmpop") {
+			to = argv[1]
+		}
+		tf, err := strconv.ParseFloat(to, 64)
+		if err != nil {
+			continue
+		}
+		if tf > 0 && b.TReturn-b.TInvoke >= time.Duration(tf*float64(time.Second)) {
+			continue // timed out
+		}
+		caused := false
+		for _, u := range w.history {
+			if len(u.Item.Args) < 2 || !strings.EqualFold(string(u.Item.Args[0]), "client") {
+				continue
+			}
+			sub := strings.ToLower(string(u.Item.Args[1]))
+			if sub != "unblock" && sub != "kill" {
+				continue
+			}
+			if u.Invoke <= b.Return && (u.Return < 0 || u.Return >= b.Invoke) {
+				caused = true
+			}
+		}
+		for _, o := range w.history {
+			if o.Client == b.Client && len(o.Item.Args) > 0 && o.Invoke < b.Invoke && o.Idx < b.Idx {
+				n := strings.ToLower(string(o.Item.Args[0]))
+				if n == "multi" {
+					caused = true // (inside MULTI the command is only queued; replies come with EXEC)
+				}
+			}
+		}
+		if c.targetGone(w, b.Client) {
+			caused = true
+		}
+		if !caused {
+			return bad("ended-without-cause", "client %d: %s ended with %s after %v of simulated time: its timeout had not elapsed and no CLIENT UNBLOCK or CLIENT KILL overlapped it [%d,%d]", b.Client, fmtArgs(argv), b.Reply.String(), b.TReturn-b.TInvoke, b.Invoke, b.Return)
+		}
+	}
 	// bystander must still be blocked
 	for _, op := range w.history {
 		if len(op.Item.Args) > 1 && string(op.Item.Args[1]) == "bystander" && op.Return >= 0 {
